@@ -66,8 +66,6 @@ pub(crate) struct SessimCtx {
     pub(crate) raw_flag: Option<Arc<AtomicBool>>,
     /// A mid-step interrupt is due at hook H2b of the current step.
     pub(crate) pending_mid: bool,
-    /// The next step seen by H2 will be stopped by a mid-step interrupt, not executed.
-    pub(crate) skip_next_hash: bool,
 }
 
 thread_local! {
@@ -131,20 +129,58 @@ pub(crate) fn on_eval_step(
 }
 
 /// Hook H2b: called once per evaluation step after the evaluator's interrupt
-/// check (and limit checks), immediately before the step is executed.
+/// check (and limit checks), immediately before the step is executed.  This is
+/// where the executed-step trace is recorded (a step that the check at the top
+/// turned into an interrupt or a limit error never gets here) and where an
+/// interrupt planned to arrive WHILE the step executes is delivered.
 #[inline]
-pub(crate) fn on_eval_step_started(_env: &mut Env, _session: &Session) {
+pub(crate) fn on_eval_step_started(
+    _env: &mut Env,
+    _session: &Session,
+    expr_state: &ExpressionState,
+    outer_expr: &Rc<Expression>,
+) {
     if MODE.load(Ordering::Relaxed) != MODE_SESSIM {
         return;
     }
     let d = SESSIM.with(|c| {
         let mut b = c.borrow_mut();
         let ctx = b.as_mut()?;
+        if !ctx.budget_exceeded {
+            let st = format!("{:?}", expr_state);
+            let mut h = ctx.round_hash;
+            h = util::fnv_u64(h, outer_expr.position.start_offset as u64);
+            h = util::fnv_u64(h, outer_expr.position.end_offset as u64);
+            h = util::fnv_bytes(h, st.as_bytes());
+            ctx.round_hash = h;
+            if ctx.round_first.is_none() {
+                ctx.round_first = Some((
+                    outer_expr.position.start_offset,
+                    outer_expr.position.end_offset,
+                    format!("{}/{}", debug_head(&outer_expr.expr_), st),
+                ));
+            }
+        }
+        if ctx.trace_on && !ctx.budget_exceeded {
+            let st = format!("{:?}", expr_state);
+            let mut h = ctx.trace_hash;
+            h = util::fnv_u64(h, outer_expr.position.start_offset as u64);
+            h = util::fnv_u64(h, outer_expr.position.end_offset as u64);
+            h = util::fnv_bytes(h, st.as_bytes());
+            ctx.trace_hash = h;
+            ctx.trace_len += 1;
+            if ctx.want_trace {
+                ctx.trace.push((
+                    outer_expr.position.start_offset,
+                    outer_expr.position.end_offset,
+                    st,
+                ));
+            }
+        }
         if !ctx.pending_mid {
             return None;
         }
         ctx.pending_mid = false;
-        ctx.skip_next_hash = true;
         ctx.deliver.as_ref().map(Rc::clone)
     });
     if let Some(d) = d {
@@ -194,12 +230,6 @@ fn sessim_step(
             ctx.pending_mid = true;
             mid = true;
         }
-        if ctx.skip_next_hash {
-            // the previous step's mid-step interrupt is consumed by this step's check:
-            // this step is not executed now
-            ctx.skip_next_hash = false;
-            return Act::None;
-        }
         if let Some(pf) = ctx.plan.iter().find(|pf| pf.at == step && !mid).cloned() {
             let n = if pf.kind == "double" { 2 } else { 1 };
             ctx.fired.push((
@@ -213,37 +243,6 @@ fn sessim_step(
                 return Act::Deliver(Rc::clone(d), n);
             }
             return Act::None;
-        }
-        if !ctx.budget_exceeded {
-            let st = format!("{:?}", expr_state);
-            let mut h = ctx.round_hash;
-            h = util::fnv_u64(h, outer_expr.position.start_offset as u64);
-            h = util::fnv_u64(h, outer_expr.position.end_offset as u64);
-            h = util::fnv_bytes(h, st.as_bytes());
-            ctx.round_hash = h;
-            if ctx.round_first.is_none() {
-                ctx.round_first = Some((
-                    outer_expr.position.start_offset,
-                    outer_expr.position.end_offset,
-                    format!("{}/{}", debug_head(&outer_expr.expr_), st),
-                ));
-            }
-        }
-        if ctx.trace_on && !ctx.budget_exceeded {
-            let st = format!("{:?}", expr_state);
-            let mut h = ctx.trace_hash;
-            h = util::fnv_u64(h, outer_expr.position.start_offset as u64);
-            h = util::fnv_u64(h, outer_expr.position.end_offset as u64);
-            h = util::fnv_bytes(h, st.as_bytes());
-            ctx.trace_hash = h;
-            ctx.trace_len += 1;
-            if ctx.want_trace {
-                ctx.trace.push((
-                    outer_expr.position.start_offset,
-                    outer_expr.position.end_offset,
-                    st,
-                ));
-            }
         }
         Act::None
     });
